@@ -44,10 +44,10 @@ theorem C10_outcome_classes (inp : List Nat) (o : Opts) :
 theorem C10_template_total {v : Nat} (hv : v < 40) : templateTraps v = [] := template_traps hv
 
 theorem C10_mask_total {v m : Nat} (hv : v < 40) (hm : m < 8) : maskTraps m (21 + 4 * v) = [] := by
-  have hs := sweepOk_of hv hm
-  simp only [sweepOk, Bool.and_eq_true] at hs
-  unfold maskTraps
-  rw [hs.1]; rfl
+  exact SweepSym.maskTraps_nil m _
+
+/-- the mask sweeps stay inside the square for EVERY side and mask number (symbolic) -/
+theorem C10_mask_total_any (m n : Nat) : maskTraps m n = [] := SweepSym.maskTraps_nil m n
 
 theorem C10_scan_total {v : Nat} (hv : v < 40) :
     ((scanCoords (Regions.side v)).all fun yx => decide (yx.1 < Regions.side v ∧ yx.2 < Regions.side v)) = true ∧
